@@ -57,7 +57,7 @@ func init() {
 			"cause = errors.Cause chain or errors.Is"},
 		Flavours: releaseThenGo126,
 		Required: []string{"cut/k=0", "cut/in-header", "cut/k=32", "cut/in-body", "readerr/alone", "readerr/with-data", "writefault/in-header", "writefault/at-32", "writefault/in-body",
-			"writefault/eager", "writefault/transient", "writefault/body>32KiB", "cut/big-frame>1MiB", "cut/std-reader", "corrupt/hsize!=32", "corrupt/bsize>=2^63", "corrupt/bsize-huge", "corrupt/bsize-beyond-stream", "corrupt/complete-frame-ok", "random/short", "random/bitflip"},
+			"writefault/eager", "writefault/transient", "writefault/error-with-complete-count-then-accepting", "writefault/error-on-the-write-that-completes-the-frame", "writefault/body>32KiB", "cut/big-frame>1MiB", "cut/std-reader", "corrupt/hsize!=32", "corrupt/bsize>=2^63", "corrupt/bsize-huge", "corrupt/bsize-beyond-stream", "corrupt/complete-frame-ok", "random/short", "random/bitflip"},
 		Families: func(c *mon.Config) []mon.Family {
 			nc := c07Corpus(c)
 			return []mon.Family{
@@ -317,9 +317,14 @@ func c07WriteFaults(w *mon.W, idx int) {
 	frame := c.frame()
 	msg := c.msg()
 	var ev int64
-	for k := 0; k < len(frame); k++ {
-		for style := 0; style < 3; style++ {
-			eager, transient := style == 1, style == 2
+	// k = len(frame) only makes sense for the eager styles: the writer takes the last bytes of the frame AND reports a
+	// failure in the same call (a sync-after-write, a quota hit exactly at the end)
+	for k := 0; k <= len(frame); k++ {
+		for style := 0; style < 4; style++ {
+			eager, transient := style == 1 || style == 3, style == 2 || style == 3
+			if k == len(frame) && !eager {
+				continue
+			}
 			qw := &quotaWriter{quota: k, eager: eager, transient: transient, err: errInjectedWrite}
 			w.Op, w.A, w.B = "Marshal(write-fault)", int64(k), int64(style)
 			var n int64
@@ -344,6 +349,12 @@ func c07WriteFaults(w *mon.W, idx int) {
 			}
 			if transient {
 				w.Bucket("writefault/transient")
+			}
+			if eager && transient {
+				w.Bucket("writefault/error-with-complete-count-then-accepting")
+			}
+			if k == len(frame) {
+				w.Bucket("writefault/error-on-the-write-that-completes-the-frame")
 			}
 		}
 		switch {
